@@ -723,6 +723,19 @@ def r17_7(ctx: Ctx) -> None:
         ld = LocalDefs(fn.node)
         tested = {x.value.id for t in ast.walk(fn.node) if isinstance(t, (ast.If, ast.While, ast.IfExp)) for x in ast.walk(expand_test(ld, t.test))
                   if isinstance(x, ast.Attribute) and x.attr == "deleted" and isinstance(x.value, ast.Name)}
+        # the same test on `self.<property>.deleted` (a local that merely named the property is presented as the property itself)
+        tested_props = {unparse(x.value): x.value for t in ast.walk(fn.node) if isinstance(t, (ast.If, ast.While, ast.IfExp))
+                        for x in ast.walk(expand_test(ld, t.test))
+                        if isinstance(x, ast.Attribute) and x.attr == "deleted" and isinstance(x.value, ast.Attribute)
+                        and isinstance(x.value.value, ast.Name) and x.value.value.id == "self"}
+        for txt, e_ in sorted(tested_props.items()):
+            k_ = _lookup_includes_deleted(ix, fn, e_)
+            if k_ is None:
+                continue
+            n += 1
+            ctx.record("R17.7", ctx.key(fn, f"`{txt}.deleted` is tested on an item that may be deleted"), fn.loc(e_), bool(k_),
+                       f"`{txt}` is a look-up property" + ("" if k_ else
+                       " that never yields a deleted item, yet the function branches on its `.deleted` flag: the branch for a deleted item is dead"))
         if not tested:
             continue
         for nm in sorted(tested):
